@@ -206,7 +206,8 @@ def evaluate_xspace(case, res):
     cfg = _cfg(case)
     n = case["npoints"]
     xgrid = lambertgrid(n, x_min=1e-5).tolist()
-    cfg.update(xgrid=xgrid, degree=case["degree"], cores=case.get("cores", 1))
+    # a grid may be given in any order (it is a set of points): the card gets it reversed, everything else is sorted
+    cfg.update(xgrid=xgrid[::-1] if case.get("reversed_grid") else xgrid, degree=case["degree"], cores=case.get("cores", 1))
     pol = cfg["polarized"]
     where = f"path={case['path']} order={cfg['order']} method={cfg['method']} pol={pol} grid={n} degree={case['degree']}"
     ops = cards.solve_ops(cfg, tag="c05x")
@@ -238,6 +239,8 @@ def evaluate_xspace(case, res):
                 res.fail(f"xspace/axial-{name}/order={cfg['order'][0]}", f"{where}: first moment of {name}: {c0:.6f} -> {c1:.6f}")
     # ---- conformance of the moment probe (seam S2) with the un-stubbed x-space operator: the Mellin moments of the
     # evolved toy PDFs must be those predicted by the probe's moment-space matrices applied to the input moments
+    if case.get("reversed_grid"):
+        where += " (grid given in descending order)"
     pcfg = {k: v for k, v in cfg.items() if k not in ("xgrid", "degree", "cores")}
     NS = [2.0, 3.0]
     pm = probe.moment_solve(pcfg, NS)
@@ -297,6 +300,7 @@ def run(ctx):
     xs = [
         dict(order=[1, 0], method="iterate-exact", path="up45", npoints=25, degree=3),
         dict(order=[2, 0], method="truncated", path="ffns4", factor=2.0, npoints=25, degree=3),
+        dict(order=[1, 0], method="truncated", path="ffns4", factor=2.0, npoints=25, degree=3, reversed_grid=True),
     ]
     if ctx.thorough():
         xs += [
